@@ -9,7 +9,7 @@ NAMES_LONG = ["hello world.txt", "MixedCase.Txt", "lower.txt", "file.name.with.d
               "thirteen_char", "fourteen_chars", "x" * 26, "y" * 27, "with+plus,comma;semi=eq[br].t", "UPPER CASE.TXT",
               "longfilename1.txt", "longfilename2.txt", "longfilename3.txt", "longfilename4.txt", "trailing.dot.x",
               "z" * 100 + ".bin", "q" * 127, "w" * 128, "v" * 200, "u" * 255]
-NAMES_UNI = ["Ünïcödé.dat", "naïve café.txt", "ÅÄÖ.TXT", "日本語.txt", "αβγδ.doc", "😀.bin", "mixé😀é.x", "Ж" * 14 + ".ю"]
+NAMES_UNI = ["abcdefghijk😀", "abcdefghijkl😀", "nOtes.txt", "Notes.txt", "Ünïcödé.dat", "naïve café.txt", "ÅÄÖ.TXT", "日本語.txt", "αβγδ.doc", "😀.bin", "mixé😀é.x", "Ж" * 14 + ".ю"]
 DIRS = ["D", "SUB", "sub dir", "Nested Directory Name", "d2", "ÄÖ", "deep"]
 
 
@@ -42,6 +42,7 @@ def volumes(tier="quick"):
     v.append(("mkfs16-8500", mk(16, 8500 * 512)))
     v.append(("build32-tiny", bd(32, clusters=300, spc=1)))
     v.append(("build16-4100", bd(16, clusters=4100, spc=1, rootent=64)))
+    v.append(("build32-high", bd(32, clusters=66000, spc=1, fatfill={c: 0x0FFFFFF7 for c in range(3, 0x10008)})))   # first free cluster > 0xFFFF
     v.append(("build12-full-fat", bd(12, clusters=339, rootent=16)))      # FAT exactly 1 sector, 341 entries
     v.append(("build12-fat2sec", bd(12, clusters=680, rootent=16)))       # 2-sector FAT (last-entry case)
     if tier == "thorough":
@@ -156,6 +157,11 @@ def namespace_program(rng, nops=40, pool=None, max_file=3000, handle_ops=True, d
             ops.append(["read", h, -1])
             ops.append(["hclose", h])
             sh.files[p] = max(sz, off + n)
+        elif r < 0.90 and sh.files:
+            p = rng.choice(sorted(sh.files))
+            hcount += 1
+            ops += [["open", f"h{hcount}", p, "w"], ["hclose", f"h{hcount}"], ["remove", p]]     # emptied (keeps one cluster), then removed
+            del sh.files[p]
         elif r < 0.92 and sh.files:
             p = rng.choice(sorted(sh.files))
             ops.append(["create", p, rng.choice([0, 1])])
